@@ -279,7 +279,7 @@ QUICK_SCALE = int(os.environ.get("IPCV_QUICK_SCALE", "4"))
 # wall-clock times on 16 cores (C01 17 s ... C11 1247 s) are evened out to roughly 6-10 minutes per
 # property by these factors on the generated case counts (enumerated domains are unaffected).
 THOROUGH_SCALE = {"C01": 25, "C02": 2, "C03": 5, "C04": 7, "C05": 8, "C06": 1, "C07": 6, "C08": 2, "C09": 6, "C10": 4, "C11": 1,
-                  "C12": 8, "C13": 12, "C14": 12, "C15": 30, "C16": 1, "C17": 20, "C18": 2, "C19": 1, "C20": 5}
+                  "C12": 8, "C13": 12, "C14": 12, "C15": 30, "C16": 1, "C17": 8, "C18": 2, "C19": 1, "C20": 5}
 
 
 def _scaled(pid, fn):
